@@ -5,6 +5,7 @@ package props
 import (
 	"encoding/json"
 	"fmt"
+	"regexp"
 	"sort"
 	"strconv"
 	"strings"
@@ -303,6 +304,19 @@ func genLineFilter(r *vk.RNG, d *Dataset, undecided *int) Stage {
 	}
 	op := vk.Pick(r, []string{"|=", "!=", "|~", "!~"})
 	if op == "|~" || op == "!~" {
+		if r.Chance(1, 3) {
+			// anchored / unanchored literal taken from an actual line (whole line or a fragment)
+			line := vk.Pick(r, d.Recs).Line
+			frag := line
+			if len(line) > 2 && r.Bool() {
+				a := r.Intn(len(line) - 1)
+				frag = line[a : a+r.Range(1, len(line)-a)]
+			}
+			src := vk.Pick(r, []string{"", "^", "^"}) + regexp.QuoteMeta(frag) + vk.Pick(r, []string{"", "$", "$"})
+			if _, err := regexp.Compile(src); err == nil {
+				return stLineFilter(op, src)
+			}
+		}
 		return stLineFilter(op, vk.Pick(r, lineRegexes))
 	}
 	var needle string
